@@ -1,6 +1,7 @@
 (* C02 for the wavelet filter-bank model: analysis and synthesis are linear maps that depend only on the entries of their argument;
    so is the multi-level transform (1-D). *)
-From MrVerif Require Import Base.Prelude Base.StarRing Base.Sums Model.OpAlg Model.ZeroPad Model.ElemOps Model.Wavelet Proofs.OpAlgProofs.
+From MrVerif Require Import Base.Prelude Base.StarRing Base.Sums Model.OpAlg Model.ZeroPad Model.ElemOps Model.Wavelet Proofs.OpAlgProofs
+  Proofs.ElemOpsProofs Proofs.AlongProofs.
 Local Open Scope nat_scope.
 
 Section WaveletWf.
@@ -73,5 +74,35 @@ Section WaveletWf.
       + cbn [bdiag dom idop]. rewrite wavedec_dom'. reflexivity.
       + apply bdiag_wf; [apply IH|apply idop_wf].
       + unfold dwt1. apply vstack_wf; [reflexivity|apply band_wf|apply band_wf].
+  Qed.
+  (* ---- two and three dimensions (sizes >= 1, filter length >= 2) ---- *)
+  Lemma wlen_pos L n : (2 <= L)%nat -> (1 <= n)%nat -> (0 < wlen L n)%nat.
+  Proof. intros HL Hn. unfold wlen. apply Nat.div_str_pos. lia. Qed.
+
+  Lemma band2_wf L n1 n2 (fa ga fb gb : vec) : (2 <= L)%nat -> (1 <= n1)%nat -> (1 <= n2)%nat -> wf (band2_op L n1 n2 fa ga fb gb).
+  Proof.
+    intros HL H1 H2. pose proof (wlen_pos L n1 HL H1). pose proof (wlen_pos L n2 HL H2). unfold band2_op. apply comp_wf.
+    - cbn [along dom ran band_op]. ring.
+    - apply along_wf; cbn [band_op dom ran]; try lia. apply band_wf.
+    - apply along_wf; cbn [band_op dom ran]; try lia. apply band_wf.
+  Qed.
+
+  Theorem dwt2_wf L n1 n2 (flo fhi glo ghi : vec) : (2 <= L)%nat -> (1 <= n1)%nat -> (1 <= n2)%nat -> wf (dwt2 L n1 n2 flo fhi glo ghi).
+  Proof.
+    intros HL H1 H2. unfold dwt2. repeat (apply vstack_wf; [reflexivity|apply band2_wf; assumption|]). apply band2_wf; assumption.
+  Qed.
+
+  Lemma wavedec2_dom' level L n1 n2 (flo fhi glo ghi : vec) : dom (wavedec2_op level L n1 n2 flo fhi glo ghi) = (n1 * (n2 * 1))%nat.
+  Proof. destruct level; reflexivity. Qed.
+
+  Theorem wavedec2_wf level : forall L n1 n2 (flo fhi glo ghi : vec), (2 <= L)%nat -> (1 <= n1)%nat -> (1 <= n2)%nat ->
+    wf (wavedec2_op level L n1 n2 flo fhi glo ghi).
+  Proof.
+    induction level as [|l IH]; intros L n1 n2 flo fhi glo ghi HL H1 H2; cbn [wavedec2_op].
+    - apply idop_wf.
+    - cbv zeta. pose proof (wlen_pos L n1 HL H1). pose proof (wlen_pos L n2 HL H2). apply comp_wf.
+      + cbn [bdiag dom idop]. rewrite wavedec2_dom'. unfold dwt2, band2_op. cbn [vstack comp along ran dom band_op]. ring.
+      + apply bdiag_wf; [apply IH; lia|apply idop_wf].
+      + apply dwt2_wf; assumption.
   Qed.
 End WaveletWf.
